@@ -168,10 +168,10 @@ func LogDiff(gb, wb *bus.Rec) (ds []Disc) {
 			}
 		}
 	}
-	if !sameSeq(go_, wo) {
+	if !SameSeq(go_, wo) {
 		ds = append(ds, Disc{KPortOut, fmt.Sprintf("port writes %s want %s", FmtLog(go_), FmtLog(wo))})
 	}
-	if !sameSeq(gp, wp) {
+	if !SameSeq(gp, wp) {
 		ds = append(ds, Disc{KAccess, fmt.Sprintf("port log %s want %s", FmtLog(gp), FmtLog(wp))})
 	}
 	// per-address subsequences of memory accesses
@@ -181,7 +181,7 @@ func LogDiff(gb, wb *bus.Rec) (ds []Disc) {
 	return
 }
 
-func sameSeq(a, b []bus.Access) bool {
+func SameSeq(a, b []bus.Access) bool {
 	if len(a) != len(b) {
 		return false
 	}
@@ -219,7 +219,7 @@ func perAddrDiff(g, w []bus.Access) string {
 	}
 	sort.Ints(addrs)
 	for _, a := range addrs {
-		if !sameSeq(gm[key(a)], wm[key(a)]) {
+		if !SameSeq(gm[key(a)], wm[key(a)]) {
 			return fmt.Sprintf("accesses at %04x: %s want %s", a, FmtLog(gm[key(a)]), FmtLog(wm[key(a)]))
 		}
 	}
